@@ -50,6 +50,8 @@ func mirrorExec(c *Ctx, op string) {
 	}
 	tgtBlocked := strings.HasSuffix(tgtKind, "#") // the target's final address cannot be created: the commit step (mkdir / rename) fails
 	tgtKind = strings.TrimSuffix(tgtKind, "#")
+	tgtShard := strings.HasSuffix(tgtKind, "%") // the ware's first-level shard directory exists already (another ware lives there), the second does not
+	tgtKind = strings.TrimSuffix(tgtKind, "%")
 	tgtDangling := strings.HasSuffix(tgtKind, "@") // the ware's slot in the target is a dangling symlink (a blob that lived on a pruned volume)
 	tgtKind = strings.TrimSuffix(tgtKind, "@")
 	tgtOther := strings.HasSuffix(tgtKind, "+") // the target warehouse received a mirror of another ware earlier
@@ -179,6 +181,11 @@ func mirrorExec(c *Ctx, op string) {
 		if sn, e := Snapshot(tgt); e == nil {
 			tgtSnap = sn.Digest(true)
 		}
+	}
+	if tgtShard && tgtKind == "ca" {
+		fin := storedWarePath(tgtKind, tgt, id)
+		os.MkdirAll(filepath.Join(filepath.Dir(filepath.Dir(fin)), "zzz"), 0755)
+		os.WriteFile(filepath.Join(filepath.Dir(filepath.Dir(fin)), "zzz", "another-ware"), []byte("x"), 0644)
 	}
 	if tgtDangling {
 		fin := storedWarePath(tgtKind, tgt, id)
@@ -408,6 +415,8 @@ func mirrorEngine(c *Ctx) {
 			tk = "ca@"
 		case k == 5:
 			tk = "file@"
+		case k == 3 || k == 8:
+			tk = "ca%"
 		case k == 1 || k == 4:
 			tk = "ca#"
 		case k == 2:
@@ -422,6 +431,8 @@ func mirrorEngine(c *Ctx) {
 			tk += "+"
 		case c.Chance(1, 5):
 			tk += "@"
+		case c.Chance(1, 5):
+			tk = "ca%"
 		}
 		mirrorExec(c, fmt.Sprintf("mirror %s %s %s %s", fmtName, tk, strings.Join(cs, ","), filesetTok(fsx)))
 	}
